@@ -54,7 +54,7 @@ func (r *ReceiverInterceptor) BindRemoteStream(
 			if attr == nil {
 				attr = make(interceptor.Attributes)
 			}
-			header, err := attr.GetRTPHeader(bytes)
+			header, err := attr.GetRTPHeader(bytes[:i])
 			if err != nil {
 				return 0, nil, err
 			}
